@@ -366,7 +366,9 @@ class BoolValue(PrimitiveValue):
 
     def cast(self, new_type):
         if new_type == DataType.INT:
-            return IntValue(int(self.data), self.span)
+            # Like (2 is int), (true is int) is an int, not a literal
+            # that may be implicitly narrowed to byte
+            return IntValue(int(self.data), self.span, shrinkable=False)
         elif new_type == DataType.BYTE:
             return ByteValue(int(self.data), self.span)
         return super().cast(new_type)
